@@ -7,7 +7,7 @@ HOOKS = {
     "guard": "cargo feature verif_hooks",
     "enable": "harness-conc depends on bc-envelope with features=[\"verif_hooks\",\"multithreaded\"]; all other checks use the public API with default features",
     "baseline_off_cmd": "cd /repo && (cargo nextest run --workspace --no-fail-fast --tool-config-file pb:/w/lib/nextest.toml --profile pb --test-threads 8 --offline || cargo test --workspace --no-fail-fast --offline)",
-    "source_commits": [],
+    "source_commits": ["9c9df7c"],
     "add_only": True,
 }
 claim("C01", "model_checking", "explicit-state BFS over operation sequences + exhaustive tree/route/obscuration enumeration against an independent digest model",
@@ -67,3 +67,8 @@ claim("C18", "exploration", "exhaustive enumeration of functions x parameter lis
 claim("C19", "exploration", "exhaustive sequences (order, repetition) of attachments x all 16 filters x single-result error kinds; every single malformation; every type subset x every type query",
       "attachments() returns exactly the added set with identical payload/vendor/conformsTo via both add routes; filters equal the model filter; none/several map to the right errors; any malformed attachment assertion makes the query fail; type checks true exactly for added types.",
       "Any error is accepted for malformed attachments.")
+
+claim("C20", "model_checking", "loom (DPOR with iterated preemption bounding) over the REAL lazy registries and formatter through the verif_hooks synchronisation seam; per-call sequential reference + quiescent-state probe",
+      "Every configuration of 2..4 threads with 1..2 operations each on one shared envelope is explored exhaustively within the preemption bound; every acquire, release, once-entry and once-exit of the five registries is a scheduling point, registries are reset to never-initialised at the start of every execution so first-use races occur in every schedule. Every execution must terminate (loom reports deadlock = no runnable thread, and any panic / poisoned lock), every call must return a text it returns in some sequential order on fresh registries, and the quiescent state must equal a sequential final state.",
+      "Threads <= 4 (loom's limit; the statement says 2..16); dcbor is explored through a vendored copy differing in three lines; loom models sequentially consistent interleavings at lock/once operations, which is all the shared access this crate has (no unsafe, no atomics).",
+      "DESIGN.md sections 4 (C20) and 5")
